@@ -56,6 +56,13 @@ CHECKS = {
         note="One proposal value per continuous draw (the statement is about which atoms move). Atoms <= 5, unconstrained.",
         technique="exhaustive enumeration of inputs and particle-choice answers on the implementation with set/shape oracles",
     ),
+    "C02": dict(
+        category="exploration",
+        text="Every shipped criteria is evaluated on directly built contexts over a grid of temperatures (1e-3..1e5 K), energy differences (0..+-1e6 eV, |dE|/kT up to 1e13), reference/trial cells (cubic, orthorhombic, triclinic x isotropic, shear, general deformations), atom counts, pressures, external stresses, chemical potentials, species masses, volumes and particle numbers. The threshold the code compares its uniform with is captured and compared in log space with the textbook formula from independent constants; the boolean decision is re-evaluated with scripted uniforms 0, t-ulp, t, t+ulp, 1-2^-53 around the code's own threshold. Parameter changes on the simulation object (every documented setter) are explored as choice points of real simulations (sequences of length 2-3).",
+        design_ref="4-C02",
+        note="Exhaustive over the grid only. The isotension strain measure is not pinned by the property: the check uses the strain the criteria exposes and requires it to vanish for an unchanged cell; the hydrostatic clause (identical to isobaric) is checked on every cell pair.",
+        technique="exhaustive grid enumeration of the decision function with threshold capture and scripted boundary uniforms; parameter-change sequences explored as choice points",
+    ),
 }
 
 NA_REASON = "check not built yet in this session (design in DESIGN.md); no claim is made"
